@@ -608,6 +608,8 @@ func run(r *ev.Run) {
 		pool.Put(e)
 	})
 
+	timingPhase(r)
+
 	for _, f := range sortedFound(col) {
 		r.Violate(f.v)
 	}
@@ -656,7 +658,7 @@ func run(r *ev.Run) {
 		"amounts are small numbers k in 0..6 mapped to k*C+E with C in {1, 2^64, 2^128}, E in {0,1}; other amounts are not enumerated",
 		"3 delegators (delegator 0 owns the escrow account and receives commission); debonding interval 1 epoch, so all entries pending at an epoch change are paid at that change, in delegator order, and reclaims of one delegator within an epoch merge",
 		"deposit / reclaim / reward / completion are compositions of the real SharePool, DebondingDelegation.Merge and computeCommission calls that mirror addEscrow, reclaimEscrow, AddRewards/TransferFromCommon and onEpochChange; the mirror is checked against those real handlers on a mock ABCI state for every transition of the first handler-conformance levels of each tree; slash always runs the real SlashEscrow",
-		"not covered here (chain level, chainmc): a debonding delegation is paid exactly once, in the EndBlock of the first epoch transition with epoch >= its end epoch and not earlier",
+		"debonding timing (paid exactly once, at the first transition with epoch >= end epoch, not earlier, at the debonding pool's price) is decided by the separate timing phase with debonding intervals 1..3 and epoch jumps of 1, 2 and 4; see timing_rule",
 		"'its share of rewards' includes the account's pro-rata share of rounding remainders left in a pool by other accounts' deposits and redemptions (they raise the share price exactly like a reward); the count of payouts that exceed paid-in + reward share without this term is reported in coverage",
 	)
 	stopProf()
@@ -692,6 +694,11 @@ func replay(r *ev.Run) {
 		os.Exit(2)
 	}
 	b, _ := json.Marshal(v.Artefact)
+	var ta timingArtefact
+	if json.Unmarshal(b, &ta) == nil && ta.Timing {
+		replayTiming(r, &ta)
+		return
+	}
 	var a artefact
 	if err := json.Unmarshal(b, &a); err != nil {
 		fmt.Println("bad artefact:", err)
